@@ -206,6 +206,8 @@ type X struct {
 	workerExpect map[int]bool
 	workerLate map[int]bool
 	pinnedAtEnd bool
+	endEvents  int
+	endWorkers map[int]bool
 	aux        net.Listener
 	auxConns   map[string]net.Conn // by remote address
 	execN      int
